@@ -66,6 +66,8 @@ CATALOGUE = {
     23: ("malformed reference '${n0' in a label", True),
     24: ("reference to a name carried by 2-5 questions in different groups (ambiguous)", False),
     25: ("save_to on a question in a group nested inside a repeat", True),
+    26: ("duplicate choice name where one or both rows have media but no label", True),
+    27: ("value=/label= parameters on a choices-sheet select, alone / before / after a select-from-file row", False),
 }
 
 
@@ -176,6 +178,19 @@ def mutate(m: int, site: int, blanks: int, x: str):
         rows += new
         wb["entities"] = [{"dataset": "ds", "label": "a"}]
         row = len(rows) - 2 - depth
+    elif m == 26:
+        choices[1]["name"] = "a"
+        for ci in ((0,), (1,), (0, 1))[site % 3]:
+            del choices[ci]["label"]
+            choices[ci]["image"] = "p.png"
+        row = ("choices", 1)
+    elif m == 27:
+        ff = {"type": "select_one_from_file f.csv", "name": "ff", "label": "F", "parameters": "value=a label=b"}
+        rows[4]["parameters"] = "value=" + x
+        if site % 3 == 1:
+            rows.append(ff)
+        elif site % 3 == 2:
+            rows.insert(0, ff)
     rows = [{} for _ in range(blanks)] + rows
     wb["survey"] = rows
     wb["choices"] = choices
@@ -192,6 +207,7 @@ def cat_ok(m: int, site: int, blanks: int, x: str):
     wb, rownum, subject = mutate(m, site, blanks, x)
     try:
         survey, _w, _js = build_survey(wb)
+        survey.validate()  # Survey.to_xml validates before it serialises
         survey.xml()
     except PyXFormError as e:
         msg = str(e)
@@ -228,7 +244,7 @@ specialise(
     "C17",
     "a.catalogue",
     c17_cat_sym,
-    {"m": [0, 1, 2, 3, 5, 6, 7, 8, 9, 10, 11, 12, 13, 14, 15, 16, 17, 18, 19, 20, 21, 22, 24, 25]},
+    {"m": [0, 1, 2, 3, 5, 6, 7, 8, 9, 10, 11, 12, 13, 14, 15, 16, 17, 18, 19, 20, 21, 22, 24, 25, 26, 27]},
     timeout=300,
     kernel=K,
     shims=("S1", "S2", "S3", "S4"),
